@@ -22,14 +22,35 @@ def base_tzdb(scope):
             "format_strings": {"ordered_map": {}, "size": 0, "orig_size": 0}, "zone_strings": {"ordered_map": {}, "size": 0, "orig_size": 0}}
 
 
+def _raw(truncated, skew):
+    """A raw (untruncated) value that the transformer would have truncated (toward zero) to `truncated`: the generators must
+    encode the *Truncated fields, never these."""
+    return truncated + skew if truncated >= 0 else truncated - skew
+
+
 def mk_rule(at_minutes, suffix, delta_seconds, from_year, to_year, letter, in_month=3, dow=7, dom=8):
+    r = mk_rule0(at_minutes, suffix, delta_seconds, from_year, to_year, letter, in_month, dow, dom)
+    r["atSeconds"] = _raw(r["atSecondsTruncated"], 37)
+    r["deltaSeconds"] = _raw(r["deltaSecondsTruncated"], 11)
+    return r
+
+
+def mk_era(offset_seconds, rules, delta_seconds, fmt, until_year, until_month, until_day, until_minutes, suffix):
+    e = mk_era0(offset_seconds, rules, delta_seconds, fmt, until_year, until_month, until_day, until_minutes, suffix)
+    e["untilSeconds"] = _raw(e["untilSecondsTruncated"], 41)
+    e["offsetSeconds"] = _raw(e["offsetSecondsTruncated"], 23)
+    e["rulesDeltaSeconds"] = _raw(e["rulesDeltaSecondsTruncated"], 13)
+    return e
+
+
+def mk_rule0(at_minutes, suffix, delta_seconds, from_year, to_year, letter, in_month=3, dow=7, dom=8):
     return {"fromYear": from_year, "toYear": to_year, "inMonth": in_month, "onDay": "x", "atTime": "x", "atTimeSuffix": suffix,
             "deltaOffset": "x", "letter": letter, "rawLine": "Rule synthetic", "atSeconds": at_minutes * 60,
             "atSecondsTruncated": at_minutes * 60, "deltaSeconds": delta_seconds, "deltaSecondsTruncated": delta_seconds,
             "onDayOfWeek": dow, "onDayOfMonth": dom}
 
 
-def mk_era(offset_seconds, rules, delta_seconds, fmt, until_year, until_month, until_day, until_minutes, suffix):
+def mk_era0(offset_seconds, rules, delta_seconds, fmt, until_year, until_month, until_day, until_minutes, suffix):
     return {"offsetString": "x", "rules": rules, "format": fmt, "untilYear": until_year, "untilYearOnly": False,
             "untilMonth": until_month, "untilDayString": str(until_day), "untilTime": "x", "untilTimeSuffix": suffix,
             "rawLine": "synthetic era", "untilDay": until_day, "untilSeconds": until_minutes * 60,
